@@ -34,16 +34,16 @@ class _MasterDUT(Module):
 
 
 class SpiMasterHarness(Harness):
-    """env = (xfer, cs, last, mon, regs, nsw)
+    """env = (xfer, cs, last, mon, regs, nsw, nx)
        xfer: None | (word, L, sword, pos, age)   sword = the L bits the slave model answers (MSB first), pos = falling pin-clock edges seen
        cs:   value of the chip-select register in the previous cycle; last: None | (L, expected low L bits of miso) of the last transfer
        mon:  (pclk, pmosi, pcsn, pulses, outbits, inbits, tsr, thigh, idle, boot) pin history for the protocol rules
-       regs: CSR front end only - register values visible to the core in this cycle (length, mosi, cs, cs_mode, loopback, start pulse); nsw: answer for the pending start"""
+       regs: CSR front end only - register values visible to the core in this cycle (length, mosi, cs, cs_mode, loopback, start pulse); nsw: answer for the pending start; nx: completed transfers (CSR front end: bounded by max_xfers)"""
     live_queries = (("spi.master.stuck", BUSY, 0, (), "a transfer never completes (done stays 0 for ever)"),)
 
-    def __init__(self, name, dw=4, div=2, mode="raw", cs_mode=0, loopback=0, ncs=1, full_words=False, swords="few", lengths=None, csr=False, overlap=True, cap=None):
+    def __init__(self, name, dw=4, div=2, mode="raw", cs_mode=0, loopback=0, ncs=1, full_words=False, swords="few", lengths=None, csr=False, overlap=True, cap=None, nwords=None, max_xfers=2):
         self.name, self.dw, self.div, self.mode, self.cs_mode, self.loopback, self.ncs = name, dw, div, mode, cs_mode, loopback, ncs
-        self.words = words_for(dw, full_words)
+        self.words = words_for(dw, full_words)[:nwords] if nwords else words_for(dw, full_words)
         self.lengths = list(lengths or range(1, dw + 1))
         self.swords_kind = swords
         self.csr = csr
@@ -55,6 +55,9 @@ class SpiMasterHarness(Harness):
         self.csvals = [1] if ncs == 1 else ([1, 2] if not cs_mode else [0, 1, 2])
         if cap:
             self.cap = cap
+        self.max_xfers = max_xfers
+        if csr:
+            self.conf_every = 211
 
     # -- construction ---------------------------------------------------------------------------
     def build(self):
@@ -93,8 +96,7 @@ class SpiMasterHarness(Harness):
 
     def env_init(self):
         mon = (0, 0, 0, 0, 0, 0, 0, 0, 0, 1)
-        cs0 = 1
-        return (None, cs0, None, mon, (0, 0, 1, 0, 0, 0) if self.csr else None, 0)
+        return (None, (1, self.cs_mode if not self.csr else 0), None, mon, (0, 0, 1, 0, 0, 0) if self.csr else None, 0, 0)
 
     # -- environment ----------------------------------------------------------------------------
     def choices(self, env):
@@ -108,7 +110,7 @@ class SpiMasterHarness(Harness):
                     for sw in self.swords(L):
                         out.append(("s", w, L, sw))
             if len(self.csvals) > 1:
-                out += [("cs", c) for c in self.csvals if c != env[1]]
+                out += [("cs", c) for c in self.csvals if c != env[1][0]]
             return out
         return [("i",), ("o",)] if self.overlap else [("i",)]
 
@@ -117,7 +119,7 @@ class SpiMasterHarness(Harness):
         if self.csr:
             L, mosi, cs, csm, lb, sp = env[4]
             return (sp, L, mosi, cs, csm, lb)
-        xfer, cs, last = env[0], env[1], env[2]
+        xfer, cs, last = env[0], env[1][0], env[2]
         m = (1 << self.dw) - 1
         if ch[0] == "s":
             return (1, ch[2], ch[1], cs, self.cs_mode, self.loopback)
@@ -169,7 +171,7 @@ class SpiMasterHarness(Harness):
 
     def observe(self, v, env, ch):
         i = self.i
-        xfer0, pcs, last, mon = env[0], env[1], env[2], env[3]
+        xfer0, (pcs, pcsm), last, mon = env[0], env[1], env[2], env[3]
         pclk, pmosi, pcsn, pulses, outbits, inbits, tsr, thigh, idle, boot = mon
         st, L_port, w_port, cs_now, csm, lb = self.ports(env, ch)
         div = self.div
@@ -226,7 +228,7 @@ class SpiMasterHarness(Harness):
         if falling and thigh not in (div//2, div - div//2):
             return env, ("spi.master.clk_high", f"clock high for {thigh} cycles, clk_divider = {div}"), 0
         if not boot:
-            if csm:
+            if pcsm:
                 if csn != want:
                     return env, ("spi.master.cs_manual", f"manual mode: cs_n = {csn:#b}, cs register was {pcs:#b}"), 0
             else:
@@ -269,30 +271,33 @@ class SpiMasterHarness(Harness):
         regs2, nsw2 = None, 0
         if self.csr:
             regs2, nsw2 = self._csr_next(env, ch)
-        return (xfer2, cs_now, last, mon2, regs2, nsw2), None, flags
+        return (xfer2, (cs_now, csm), last, mon2, regs2, nsw2, min(env[6] + int(finished), self.max_xfers) if self.csr else 0), None, flags
 
     # -- CSR front end ---------------------------------------------------------------------------
     def _csr_choices(self, env):
         xfer, regs = env[0], env[4]
         L, mosi, cs, csm, lb, sp = regs
         out = [("i",)]
-        if xfer is None and not sp:
+        if xfer is None and not sp and env[6] < self.max_xfers:
             for w in self.words:
                 if w != mosi:
                     out.append(("w", "mosi", w))
             for L2 in self.lengths:
-                for sw in self.swords(L2):
+                for sw in self.swords(L2)[:2]:
                     out.append(("w", "control", (L2 << 8) | 1, sw))
-                if L2 != L:
+                if L2 != L and self.csr == "free":
                     out.append(("w", "control", (L2 << 8), 0))
-            out.append(("w", "loopback", lb ^ 1))
-            for c in self.csvals:
-                if c != cs:
-                    out.append(("w", "cs", c | (csm << 16)))
-            out.append(("w", "cs", cs | ((csm ^ 1) << 16)))
+            if env[2] is None or self.csr == "free":
+                # mode registers: programmed before the first transfer (keeps the product with the transfer history small)
+                out.append(("w", "loopback", lb ^ 1))
+                for c in self.csvals:
+                    if c != cs:
+                        out.append(("w", "cs", c | (csm << 16)))
+                out.append(("w", "cs", cs | ((csm ^ 1) << 16)))
         elif xfer is not None:
             out.append(("w", "control", (L << 8) | 1, 0))
-            out.append(("w", "mosi", mosi ^ ((1 << self.dw) - 1)))
+            if self.csr == "free":
+                out.append(("w", "mosi", mosi ^ ((1 << self.dw) - 1)))
         return out
 
     def _csr_next(self, env, ch):
@@ -322,3 +327,167 @@ class SpiMasterHarness(Harness):
         if self.overlap and not self.overlaps:
             return "no overlapping start"
         return None
+
+
+# ---------------------------------------------------------------------------------------------------
+# SPI slave against an ideal mode-0 master
+# ---------------------------------------------------------------------------------------------------
+class SpiSlaveHarness(Harness):
+    """env = (run, gap, res, mon)
+       run: None | (wm, L, ws, lead, n): transfer in progress, n = index into the master's waveform
+       gap: idle cycles since the end of the last transfer (cap); res: None | (L, bits sent) result the slave must show while idle
+       mon: (starts, irqs, since_end) pulse counters of the current / last transfer"""
+    live_queries = (("spi.slave.stuck", BUSY, 0, (), "chip select released for ever but done never returns"),)
+
+    def __init__(self, name, dw=4, half=4, skew=0, loopback=0, lengths=None, nwords=3):
+        self.name, self.dw, self.h, self.skew, self.loopback = name, dw, half, skew, loopback
+        self.lengths = list(lengths if lengths is not None else range(0, dw + 1))
+        m = (1 << dw) - 1
+        self.wm = words_for(dw, True)[:nwords]
+        self.ws = [int("69" * 4, 16) & m, int("A5" * 4, 16) & m][:2] if not loopback else [0]
+        self.leads = (3, 5)
+        self.lag = 1
+        self.mingap = 4
+        self.wave = {}
+        self.completed = 0
+        self.lens = set()
+
+    def build(self):
+        from litex.soc.cores.spi.spi_slave import SPISlave
+        self.pads = Record([("clk", 1), ("cs_n", 1), ("mosi", 1), ("miso", 1)])
+        self.dut = SPISlave(self.pads, self.dw)
+        return self.dut
+
+    def bind(self, D):
+        s, p = self.dut, self.pads
+        g = D.i
+        self.i = dict(clk=g(p.clk), csn=g(p.cs_n), pmosi=g(p.mosi), pmiso=g(p.miso), start=g(s.start), length=g(s.length), done=g(s.done),
+                      irq=g(s.irq), mosi=g(s.mosi), miso=g(s.miso), lb=g(s.loopback))
+
+    def waveform(self, wm, L, lead):
+        """list of (cs_n, clk, mosi, index of the rising edge that happens in this cycle or -1); bits MSB first out of the low L bits of wm"""
+        key = (wm, L, lead)
+        w = self.wave.get(key)
+        if w is None:
+            bit = lambda k: (wm >> (L - 1 - k)) & 1 if 0 <= k < L else 0
+            w = [(0, 0, bit(0), -1)] * lead
+            for k in range(L):
+                w += [(0, 1, bit(k), k if t == 0 else -1) for t in range(self.h)]
+                for t in range(self.h):
+                    nxt = bit(k + 1) if k + 1 < L else bit(k)
+                    w.append((0, 0, bit(k) if t < self.skew else nxt, -1))
+            w += [(0, 0, bit(L - 1) if L else bit(0), -1)] * self.lag
+            self.wave[key] = w
+        return w
+
+    def env_init(self):
+        return (None, 0, None, (0, 0, 9, 0))
+
+    def choices(self, env):
+        run, gap, res, mon = env
+        if run is not None:
+            return [("c",)]
+        out = [("i",)]
+        if gap >= self.mingap:
+            for wm in self.wm:
+                for L in self.lengths:
+                    if L and (wm & ((1 << L) - 1)) in [x & ((1 << L) - 1) for x in self.wm[:self.wm.index(wm)]]:
+                        continue
+                    for ws in self.ws:
+                        for lead in self.leads:
+                            out.append(("x", wm & ((1 << L) - 1), L, ws, lead))
+        return out
+
+    def _cur(self, env, ch):
+        if ch[0] == "x":
+            return (ch[1], ch[2], ch[3], ch[4], 0)
+        return env[0]
+
+    def drive(self, v, env, ch):
+        i = self.i
+        run = self._cur(env, ch)
+        v[i["lb"]] = self.loopback
+        if run is None:
+            v[i["csn"]], v[i["clk"]], v[i["pmosi"]] = 1, 0, 0
+            v[i["miso"]] = 0
+        else:
+            wm, L, ws, lead, n = run
+            csn, clk, mosi, _ = self.waveform(wm, L, lead)[n]
+            v[i["csn"]], v[i["clk"]], v[i["pmosi"]] = csn, clk, mosi
+            v[i["miso"]] = ws
+
+    def observe(self, v, env, ch):
+        i = self.i
+        run0, gap, res, mon = env
+        starts, irqs, since_end, miso_r = mon
+        run = self._cur(env, ch)
+        st, irq, done = v[i["start"]], v[i["irq"]], v[i["done"]]
+        if run is not None and run[4] == 0:
+            starts, irqs, since_end = 0, 0, 0
+        starts += st
+        irqs += irq
+        flags = 0
+        if run is not None:
+            wm, L, ws, lead, n = run
+            wf = self.waveform(wm, L, lead)
+            csn, clk, mosi, k = wf[n]
+            if clk and k < 0 and v[i["pmiso"]] != miso_r:
+                return env, ("spi.slave.miso_hold", "MISO changes while the clock pin is high (mode 0: shift on the falling edge)"), 0
+            if k >= 0:
+                # the master samples MISO on its rising edge
+                exp = (wm >> (L - 1 - k)) & 1 if self.loopback else (ws >> (self.dw - 1 - k)) & 1
+                if v[i["pmiso"]] != exp:
+                    return env, ("spi.slave.miso_bit", f"rising edge {k}: MISO = {v[i['pmiso']]}, expected bit {self.dw - 1 - k} of {ws:#x} = {exp}" if not self.loopback
+                                 else f"rising edge {k}: MISO = {v[i['pmiso']]}, loop-back of MOSI = {exp}"), 0
+                if starts != 1:
+                    return env, ("spi.slave.start", f"{starts} start pulses between chip select and the first clock edge"), 0
+                miso_r = v[i["pmiso"]]
+            if starts > 1:
+                return env, ("spi.slave.start", "second start pulse in one transfer"), 0
+            if irqs:
+                return env, ("spi.slave.irq", "irq while the chip select is still asserted"), 0
+            if starts and done:
+                return env, ("spi.slave.done", "done = 1 during a transfer"), 0
+            n += 1
+            if n >= len(wf):
+                run2, gap2, res2 = None, 0, (L, wm)
+            else:
+                run2, gap2, res2 = (wm, L, ws, lead, n), 0, res
+            since2 = 0
+        else:
+            run2, gap2, res2 = None, min(gap + 1, self.mingap + 1), res
+            since2 = min(since_end + 1, 9)
+            if st and res is not None:
+                return env, ("spi.slave.start", "start pulse while the chip select is released"), 0
+            if irqs > 1:
+                return env, ("spi.slave.irq", "second irq pulse for one transfer"), 0
+            if res is not None:
+                if since2 > 4:
+                    if irqs != 1:
+                        return env, ("spi.slave.irq", f"{irqs} irq pulses within 4 cycles after the chip select was released"), 0
+                    if starts != 1:
+                        return env, ("spi.slave.start", f"{starts} start pulses in a transfer"), 0
+                    if not done:
+                        return env, ("spi.slave.done", "done = 0 more than 4 cycles after the chip select was released"), 0
+                if irqs == 1 and not irq:
+                    L, bits = res
+                    if v[i["length"]] != L:
+                        return env, ("spi.slave.length", f"length = {v[i['length']]} after a transfer of {L} clock pulses"), 0
+                    if (v[i["mosi"]] & ((1 << L) - 1)) != bits:
+                        return env, ("spi.slave.mosi", f"mosi = {v[i['mosi']]:#x}: low {L} bits expected {bits:#x}"), 0
+                    if since2 == 9 and gap2 > self.mingap:
+                        pass
+                if since2 <= 4 and not (irqs == 1 and not irq):
+                    flags |= BUSY
+                if since2 == 5:
+                    self.completed += 1
+                    self.lens.add(res[0])
+            elif not done and since2 > 4:
+                return env, ("spi.slave.done", "done = 0 although no transfer ever started"), 0
+        return (run2, gap2, res2, (starts, irqs, since2, miso_r)), None, flags
+
+    def cover_report(self):
+        return dict(transfers_completed=self.completed, lengths=sorted(self.lens))
+
+    def vacuity(self):
+        return None if self.completed else "no transfer completed"
